@@ -45,35 +45,120 @@ def rint(rng):
     return rng.choice([0, 1, -1, 7, 255, 256, 4095, -4096, 1000003, -99991, 2**31 - 1, -2**31])
 
 
+TCODE = ['Int', 'Float', 'String', 'Pt']
+
+
+def pick_t(rng):
+    return rng.choices([0, 1, 2, 3], [5, 2, 3, 2])[0]
+
+
+def gen_ctor(rng, kinds, r=None):
+    """one constructor token; `kinds` (register -> kind, mirrors what the harness will build) is updated"""
+    r = rng.randrange(NREG) if r is None else r
+    op = rng.choice(CTORS)
+    a = [rint(rng) for _ in range(4)]
+    if op in ('na', 'nl'):
+        t = pick_t(rng); a[0] = t + 4 * rng.randrange(0, 3)
+        a[1] = rng.choice([0, 1, 2, 3, 5, 8, 13, 23, rng.randrange(0, 24)])
+        kinds[r] = ('Array:' if op == 'na' else 'List:') + TCODE[t]
+    elif op in ('nt', 'nr'):
+        k = rng.randrange(2); t = pick_t(rng)
+        a[0] = k + 2 * rng.randrange(0, 3); a[1] = t + 4 * rng.randrange(0, 3)
+        a[2] = rng.choice([0, 1, 2, 4, 5, 6, 11, 12, 23, rng.randrange(0, 24)])
+        kinds[r] = ('Table:' if op == 'nt' else 'Tree:') + ('String' if k else 'Int') + ':' + TCODE[t]
+    elif op == 'nR':
+        src = [q for q, kd in kinds.items() if kd != 'Ref' and q != r]
+        if not src:
+            return gen_ctor(rng, kinds, r)
+        a[0] = rng.choice(src); kinds[r] = 'Ref'
+    else:
+        kinds[r] = {'ni': 'Int', 'nf': 'Float', 'ns': 'String', 'np': 'Pt', 'nu': 'Tuple', 'ng': 'Range'}[op]
+    return '%s:%d,%d,%d,%d,%d' % (op, r, a[0], a[1], a[2], a[3])
+
+
+SCALAR_OK = ('as', 'sw', 'cp', 'cm', 'ha', 'sh', 'ci', 'ty')
+
+
+def aim(rng, kinds, op, reg, focus):
+    """prefer a register on which the operation does something"""
+    if op in SCALAR_OK or rng.random() < .1:
+        return reg
+    if op == 'de':
+        want = ('Ref',)
+    elif op in ('rv',):
+        want = ('List',)
+    elif op in ('so',):
+        want = ('Array',)
+    elif op in ('ib',):
+        want = ('List', 'Table', 'Tree', 'Tuple')
+    elif op in ('cc', 'ap', 'rs', 'cl'):
+        want = ('Array', 'List', 'String', 'Table', 'Tree')
+    elif op in ('sl', 'en', 'ma', 'zp'):
+        want = ('Array', 'List')
+    elif op in ('fi',):
+        want = ('Array', 'List', 'Table', 'Tree')
+    elif op in ('po', 'pt', 'pa'):
+        want = ('Array', 'List', 'Tuple')
+    else:
+        want = ('Array', 'List', 'Table', 'Tree', 'Tuple', 'String')
+    c = [q for q, kd in kinds.items() if kd.split(':')[0] in want]
+    if not c:
+        return reg
+    return focus if (focus in c and rng.random() < .5) else rng.choice(c)
+
+
 def gen_wl(rng, nops):
-    toks = []
-    live = []
+    toks, kinds = [], {}
     for _ in range(rng.randrange(3, 8)):
-        r = rng.randrange(NREG)
-        toks.append('%s:%d,%d,%d,%d,%d' % (rng.choice(CTORS), r, rint(rng), rint(rng), rint(rng), rint(rng)))
-        live.append(r)
-    focus = rng.choice(live)
+        toks.append(gen_ctor(rng, kinds))
+    focus = rng.choice(list(kinds))
     for _ in range(nops):
+        if not kinds:
+            toks.append(gen_ctor(rng, kinds)); continue
+        if focus not in kinds:
+            focus = rng.choice(list(kinds))
         x = rng.random()
-        reg = focus if rng.random() < .5 else (rng.choice(live) if rng.random() < .8 else rng.randrange(NREG))
+        reg = focus if rng.random() < .5 else (rng.choice(list(kinds)) if rng.random() < .9 else rng.randrange(NREG))
         if x < .12:
-            r = rng.randrange(NREG)
-            toks.append('%s:%d,%d,%d,%d,%d' % (rng.choice(CTORS), r, rint(rng), rint(rng), rint(rng), rint(rng)))
-            live.append(r)
+            toks.append(gen_ctor(rng, kinds))
         elif x < .47:
-            toks.append('%s:%d,%d,%d' % (rng.choice(MUT), reg, rint(rng), rint(rng)))
+            op = rng.choice(MUT)
+            reg = aim(rng, kinds, op, reg, focus)
+            if op in ('cc', 'as', 'sw'):
+                same = [q for q, kd in kinds.items() if kd == kinds.get(reg) and q != reg]
+                y = rng.choice(same) if same and rng.random() < .85 else rng.randrange(NREG)
+                toks.append('%s:%d,%d' % (op, reg, y))
+            elif op == 'cp':
+                y = rng.randrange(NREG)
+                toks.append('cp:%d,%d' % (reg, y))
+                kd = kinds.get(reg, '')
+                if kd and kd.split(':')[0] in ('Int', 'Float', 'String', 'Pt', 'Array', 'List', 'Table', 'Tree'):
+                    kinds[y] = kd
+            else:
+                toks.append('%s:%d,%d,%d' % (op, reg, rint(rng), rint(rng)))
         elif x < .80:
-            toks.append('%s:%d,%d,%d' % (rng.choice(OBS), reg, rint(rng), rint(rng)))
+            op = rng.choice(OBS)
+            reg = aim(rng, kinds, op, reg, focus)
+            if op in ('cm', 'zp'):
+                same = [q for q, kd in kinds.items() if (kd == kinds.get(reg) or (op == 'zp' and kd.split(':')[0] in ('Array', 'List', 'Table', 'Tree'))) and q != reg]
+                y = rng.choice(same) if same and rng.random() < .85 else rng.randrange(NREG)
+                toks.append('%s:%d,%d' % (op, reg, y))
+            else:
+                toks.append('%s:%d,%d,%d' % (op, reg, rint(rng), rint(rng)))
         else:
             op = rng.choice(FREE)
             if op in ('D', 'gc'):
                 toks.append(op)
             elif op in ('dr', 'dl'):
                 toks.append('%s:%d' % (op, reg))
+                kinds.pop(reg, None)
+                if op == 'dl':      # the harness clears the Refs to a deleted object; which ones is not tracked here
+                    for q in [q for q, kd in kinds.items() if kd == 'Ref']:
+                        pass
             else:
                 toks.append('%s:%d,%d,%d,%d' % (op, rint(rng), rint(rng), rint(rng), rint(rng)))
-        if rng.random() < .1:
-            focus = rng.choice(live)
+        if rng.random() < .1 and kinds:
+            focus = rng.choice(list(kinds))
     toks.append('gc')
     toks.append('D')
     return 'wl|' + ' '.join(toks)
@@ -329,12 +414,12 @@ def run(ctx):
 
     dw.feed(CORPUS_WL, 'corpus')
     ds.feed(CORPUS_SEQ if drv is not None else CORPUS_SEQ[:2], 'corpus')
-    nwl = 250 if quick else 4000
+    nwl = 1200 if quick else 12000
     maxops = 70 if quick else 120
     cases = [gen_wl(ctx.rng, ctx.rng.randrange(20, maxops)) for _ in range(nwl)]
     for i in range(0, nwl, 500):
         dw.feed(cases[i:i + 500])
-    nseq = 400 if quick else 20000
+    nseq = 1500 if quick else 30000
     scases = [gen_seq(ctx.rng, ctx.rng.randrange(3, 40), drv is None or ctx.rng.random() < .7) for _ in range(nseq)]
     for i in range(0, nseq, 2000):
         ds.feed(scases[i:i + 2000])
